@@ -344,12 +344,17 @@ Fixpoint build_nodes (ns : list pnode) (call_names : list (wth str)) (predef : o
       end
   end.
 
+(* `HashSet::union` iterates the LARGER set first (std: `if self.len() >= other.len()`), then the other's difference:
+   for a name in both sets the token of the larger set is the one that survives the following `collect()` *)
+Definition union_names (a b : list (wth str)) : list (wth str) :=
+  if Nat.leb (length b) (length a) then dedup_names (a ++ b) [] else dedup_names (b ++ a) [].
+
 Definition cfg_new (ns : list pnode) (predef : option (list (wth str))) : cfgerr + cfg :=
   let label_names := filter_map label_of ns in
   let call_names := dedup_names (filter_map calls_to ns ++ match predef with Some p => p | None => [] end) [] in
   let jump_names := dedup_names (filter_map jumps_to ns) [] in
   let load_names := dedup_names (filter_map reads_address_of ns) [] in
-  let used := dedup_names (call_names ++ jump_names ++ load_names) [] in
+  let used := union_names (union_names call_names jump_names) load_names in
   let undefined := filter (fun x => negb (mem_name (wv x) label_names)) used in
   match undefined with
   | _ :: _ => inl (CLabelsNotDefined undefined)
